@@ -20,7 +20,7 @@
     USA
 """
 
-from typing import TYPE_CHECKING, List, Optional, Set, Tuple, Union, cast
+from typing import TYPE_CHECKING, Dict, List, Optional, Set, Tuple, Union, cast
 
 from .._cache import DNSCache, _UniqueRecordsType
 from .._dns import DNSAddress, DNSPointer, DNSQuestion, DNSRecord, DNSRRSet
@@ -329,14 +329,18 @@ class QueryHandler:
 
         query_res = _QueryResponse(self.cache, questions, is_probe, msg.now)
         known_answers = DNSRRSet(answers)
-        known_answers_set: Optional[Set[DNSRecord]] = None
+        known_answers_by_name: Optional[Dict[str, List[DNSRecord]]] = None
         now = msg.now
         for strategy in strategies:
             question = strategy.question
             is_unicast = question.unique  # unique and unicast are the same flag
             if not is_unicast:
-                if known_answers_set is None:  # pragma: no branch
-                    known_answers_set = known_answers.lookup_set()
+                if known_answers_by_name is None:  # pragma: no branch
+                    # Indexed once per query: a large query would otherwise scan all
+                    # of its known answers again for every one of its questions
+                    known_answers_by_name = {}
+                    for record in known_answers.lookup_set():
+                        known_answers_by_name.setdefault(record.key, []).append(record)
                 # Only the known answers to this question matter for duplicate question
                 # suppression, a query can carry several questions with their known answers
                 self.question_history.add_question_at_time(
@@ -344,8 +348,8 @@ class QueryHandler:
                     now,
                     {
                         record
-                        for record in known_answers_set
-                        if record.key == question.key and question.type in (record.type, _TYPE_ANY)
+                        for record in known_answers_by_name.get(question.key, ())
+                        if question.type in (record.type, _TYPE_ANY)
                     },
                 )
             answer_set = self._answer_question(
